@@ -473,6 +473,24 @@ static size_t firstFilledFrame(const ezc3d::DataNS::Data& data)
     return 0;
 }
 
+// A file is not required to hold every parameter that updateParameters keeps up to date (ANALOG:DESCRIPTIONS is
+// often absent). The missing one is added, empty, so that the update cannot stop half-way
+static void addParameterIfAbsent(ezc3d::ParametersNS::GroupNS::Group& group, const std::string& name, ezc3d::DATA_TYPE type)
+{
+    try {
+        group.parameterIdx(name);
+    } catch (std::invalid_argument) {
+        ezc3d::ParametersNS::GroupNS::Parameter p(name);
+        if (type == ezc3d::DATA_TYPE::CHAR)
+            p.set(std::vector<std::string>());
+        else if (type == ezc3d::DATA_TYPE::FLOAT)
+            p.set(std::vector<float>());
+        else
+            p.set(std::vector<int>());
+        group.parameter(p);
+    }
+}
+
 void ezc3d::c3d::updateHeader()
 {
     // Parameter is always consider as the right value. If there is a discrepancy between them, change the header
@@ -543,6 +561,9 @@ void ezc3d::c3d::updateParameters(const std::vector<std::string> &newPoints, con
     else
         nPoints = parameters().group("POINT").parameter("LABELS").valuesAsString().size() + newPoints.size();
     if (nPoints != static_cast<size_t>(grpPoint.parameter("USED").valuesAsInt()[0])){
+        addParameterIfAbsent(grpPoint, "LABELS", ezc3d::DATA_TYPE::CHAR);
+        addParameterIfAbsent(grpPoint, "DESCRIPTIONS", ezc3d::DATA_TYPE::CHAR);
+        addParameterIfAbsent(grpPoint, "UNITS", ezc3d::DATA_TYPE::CHAR);
         grpPoint.parameter_nonConst("USED").set(nPoints);
 
         size_t idxLabels(grpPoint.parameterIdx("LABELS"));
@@ -586,6 +607,11 @@ void ezc3d::c3d::updateParameters(const std::vector<std::string> &newPoints, con
     } else
         nAnalogs = parameters().group("ANALOG").parameter("LABELS").valuesAsString().size() + newAnalogs.size();
     if (nAnalogs != static_cast<size_t>(grpAnalog.parameter("USED").valuesAsInt()[0])){
+        addParameterIfAbsent(grpAnalog, "LABELS", ezc3d::DATA_TYPE::CHAR);
+        addParameterIfAbsent(grpAnalog, "DESCRIPTIONS", ezc3d::DATA_TYPE::CHAR);
+        addParameterIfAbsent(grpAnalog, "SCALE", ezc3d::DATA_TYPE::FLOAT);
+        addParameterIfAbsent(grpAnalog, "OFFSET", ezc3d::DATA_TYPE::INT);
+        addParameterIfAbsent(grpAnalog, "UNITS", ezc3d::DATA_TYPE::CHAR);
         grpAnalog.parameter_nonConst("USED").set(nAnalogs);
 
         size_t idxLabels(static_cast<size_t>(grpAnalog.parameterIdx("LABELS")));
